@@ -85,6 +85,25 @@ type Sched struct {
 	crashDone bool
 }
 
+// fileClass maps a path to a stable class name (table names contain random
+// numbers); the native replay builds the same strings so traces can be compared.
+func fileClass(p string) string {
+	b := filepath.Base(p)
+	switch {
+	case b == "tables.list":
+		return "list"
+	case b == "tables.list.lock":
+		return "list.lock"
+	case strings.HasSuffix(b, ".ref.lock"):
+		return "table.lock"
+	case strings.HasSuffix(b, ".ref"):
+		return "table"
+	case strings.HasSuffix(b, ".reftmp"):
+		return "tmp"
+	}
+	return "other"
+}
+
 func (m *Machine) curProc() int {
 	if m.sched != nil && m.sched.active && m.sched.cur != nil {
 		return m.sched.cur.id
@@ -105,7 +124,7 @@ func (m *Machine) step(visible bool, what string) {
 	}
 	me := s.cur
 	if me.crashable && !s.crashDone {
-		if m.decide(2) == 1 {
+		if m.decideRec(2, "crash") == 1 {
 			s.crashDone = true
 			me.crashed = true
 			fs.trace = append(fs.trace, fmt.Sprintf("P%d CRASH before %s", me.id, what))
@@ -205,7 +224,7 @@ func (m *Machine) runThreads(maxPre int, allSteps bool) {
 		if curAlive && s.preempts >= s.maxPre {
 			n = 1
 		}
-		k := m.decide(n)
+		k := m.decideRec(n, "sched")
 		if curAlive && k > 0 {
 			s.preempts++
 			m.fs.trace = append(m.fs.trace, fmt.Sprintf("-- preempt P%d -> P%d", s.cur.id, order[k].id))
@@ -217,9 +236,21 @@ func (m *Machine) runThreads(maxPre int, allSteps bool) {
 			panic(t.err)
 		}
 	}
+	m.lastCrashed = s.crashDone
 	s.threads = nil
 	s.preempts = 0
 	s.crashDone = false
+}
+
+// decideRec is decide for scheduler/crash choices: the outcome also goes into
+// the replay vector so that the native scheduler takes the same decisions.
+func (m *Machine) decideRec(n int, kind string) int {
+	if n <= 1 {
+		return 0
+	}
+	k := m.decide(n)
+	m.inputs = append(m.inputs, nondetRec{kind: kind, val: int64(k)})
+	return k
 }
 
 // ---------- monitors ----------
@@ -348,7 +379,7 @@ func (m *Machine) fsIntrinsic(name string, args []Val) (Val, bool) {
 		p := m.goString(args[0], name)
 		flag := m.cInt(args[1], "open flags")
 		base := filepath.Base(p)
-		m.step(true, fmt.Sprintf("openfile(%#x) %s", flag, base))
+		m.step(true, fmt.Sprintf("openfile(%#x) %s", flag, fileClass(p)))
 		const oCREATE, oEXCL, oTRUNC = 0x40, 0x80, 0x200
 		ino := fs.dir[p]
 		if ino != nil && flag&oEXCL != 0 && flag&oCREATE != 0 {
@@ -372,7 +403,7 @@ func (m *Machine) fsIntrinsic(name string, args []Val) (Val, bool) {
 	case "os.Open":
 		fs := m.needFS()
 		p := m.goString(args[0], name)
-		m.step(true, "open "+filepath.Base(p))
+		m.step(true, "open "+fileClass(p))
 		ino := fs.dir[p]
 		if ino == nil {
 			return Tuple{nil, mkErr("notexist", "open "+p+": no such file or directory")}, true
@@ -381,7 +412,7 @@ func (m *Machine) fsIntrinsic(name string, args []Val) (Val, bool) {
 	case "os.Rename":
 		fs := m.needFS()
 		from, to := m.goString(args[0], name), m.goString(args[1], name)
-		m.step(true, "rename "+filepath.Base(from)+" -> "+filepath.Base(to))
+		m.step(true, "rename "+fileClass(from)+" "+fileClass(to))
 		ino := fs.dir[from]
 		if ino == nil {
 			return mkErr("notexist", "rename "+from+": no such file or directory"), true
@@ -403,7 +434,7 @@ func (m *Machine) fsIntrinsic(name string, args []Val) (Val, bool) {
 		fs := m.needFS()
 		p := m.goString(args[0], name)
 		base := filepath.Base(p)
-		m.step(!strings.HasSuffix(p, ".reftmp"), "remove "+base)
+		m.step(!strings.HasSuffix(p, ".reftmp"), "remove "+fileClass(p))
 		if fs.dir[p] == nil {
 			return mkErr("notexist", "remove "+p+": no such file or directory"), true
 		}
@@ -414,7 +445,7 @@ func (m *Machine) fsIntrinsic(name string, args []Val) (Val, bool) {
 	case "io/ioutil.ReadFile", "os.ReadFile":
 		fs := m.needFS()
 		p := m.goString(args[0], name)
-		m.step(true, "readfile "+filepath.Base(p))
+		m.step(true, "readfile "+fileClass(p))
 		ino := fs.dir[p]
 		if ino == nil {
 			return Tuple{Slice{isNil: true}, mkErr("notexist", "open "+p+": no such file or directory")}, true
@@ -425,7 +456,7 @@ func (m *Machine) fsIntrinsic(name string, args []Val) (Val, bool) {
 	case "io/ioutil.TempFile", "os.CreateTemp":
 		fs := m.needFS()
 		dir, pat := m.goString(args[0], name), m.goString(args[1], name)
-		m.step(false, "tempfile "+pat)
+		m.step(false, "tempfile")
 		fs.tmpCnt++
 		nm := filepath.Join(dir, strings.Replace(pat, "*", fmt.Sprintf("%09d", fs.tmpCnt), 1))
 		fs.inoCnt++
@@ -453,7 +484,7 @@ func (m *Machine) fsIntrinsic(name string, args []Val) (Val, bool) {
 		if f == nil {
 			return Tuple{goInt(0), m.fsSentinel("ErrInvalid")}, true
 		}
-		m.step(false, "write "+filepath.Base(f.name))
+		m.step(false, "write "+fileClass(f.name))
 		if f.closed {
 			return Tuple{goInt(0), mkErr("closed", "write "+f.name+": file already closed")}, true
 		}
@@ -475,7 +506,7 @@ func (m *Machine) fsIntrinsic(name string, args []Val) (Val, bool) {
 		if f == nil {
 			return m.fsSentinel("ErrInvalid"), true
 		}
-		m.step(false, "close "+filepath.Base(f.name))
+		m.step(false, "close "+fileClass(f.name))
 		if f.closed {
 			return mkErr("closed", "close "+f.name+": file already closed"), true
 		}
@@ -488,14 +519,14 @@ func (m *Machine) fsIntrinsic(name string, args []Val) (Val, bool) {
 		return mkStr(args[0].(*fileObj).name), true
 	case "(*os.File).Stat":
 		f := args[0].(*fileObj)
-		m.step(false, "stat "+filepath.Base(f.name))
+		m.step(false, "stat "+fileClass(f.name))
 		if f.closed {
 			return Tuple{nil, mkErr("closed", "stat "+f.name+": file already closed")}, true
 		}
 		return Tuple{Iface{nativeInfoType, &fileInfo{name: filepath.Base(f.name), size: f.ino.n}}, nil}, true
 	case "(*os.File).ReadAt":
 		f := args[0].(*fileObj)
-		m.step(false, "readat "+filepath.Base(f.name))
+		m.step(false, "readat "+fileClass(f.name))
 		if f.closed {
 			return Tuple{goInt(0), mkErr("closed", "read "+f.name+": file already closed")}, true
 		}
